@@ -4,8 +4,8 @@ from gen_util import *
 from srp_cases import *
 import pyref, struct
 
-MODULES = ["WowSrp.Props.C15", "WowSrp.Props.C15Rng", "WowSrp.Props.Source.Structural.C15", "WowSrp.Props.Source.Shape.C15", "WowSrp.Props.Source.ApiDraws", "WowSrp.Props.Source.ApiReconnect", "WowSrp.Props.Source.ApiIntoServer"]
-THEOREMS = ["C15_salt", "C15_login_challenge", "C15_reconnect_refresh", "C15_client_challenge", "C15_seed", "C15_private_key_value", "C15_server_private_key", "C15_client_private_key", "C15_uniform_constants", "C15_digits_exact", "C15_digits", "C15_rng_constants", "C15_convenience_generators", "C15_pin_grid_seed_differs", "C15_generators_sequential", "C15_source_structural_impls", "C15_source_shapes", "C15_translated_from_username_and_password", "C15_translated_into_proof", "C05_translated_verify_reconnection_attempt", "C05_translated_calculate_reconnect_values", "C02_translated_into_server", "C15_translated_draw_signatures"]
+MODULES = ["WowSrp.Props.C15", "WowSrp.Props.C15Rng", "WowSrp.Props.Source.Structural.C15", "WowSrp.Props.Source.Shape.C15", "WowSrp.Props.Source.ApiDraws", "WowSrp.Props.Source.ApiReconnect", "WowSrp.Props.Source.ApiIntoServer", "WowSrp.Props.Source.ApiLinkedCtors"]
+THEOREMS = ["C15_salt", "C15_login_challenge", "C15_reconnect_refresh", "C15_client_challenge", "C15_seed", "C15_private_key_value", "C15_server_private_key", "C15_client_private_key", "C15_uniform_constants", "C15_digits_exact", "C15_digits", "C15_rng_constants", "C15_convenience_generators", "C15_pin_grid_seed_differs", "C15_generators_sequential", "C15_source_structural_impls", "C15_source_shapes", "C15_translated_from_username_and_password", "C15_translated_into_proof", "C05_translated_verify_reconnection_attempt", "C05_translated_calculate_reconnect_values", "C02_translated_into_server", "C15_translated_draw_signatures", "C15_linked_from_username_and_password", "C15_linked_into_proof"]
 RULE = ("every documented call site with injected draws: the bytes consumed (count checked via the ~n suffix) and the value produced must be the "
         "documented injective function of exactly those bytes (identity for salts/challenges/seeds, g^(LE of all 32 bytes) for private keys, accepted "
         "samples for card digits), compared with an independent computation; single-byte changes of a draw at every position change the output; "
